@@ -70,6 +70,18 @@ fn check_text(prop: &str, text: &str, rep: &mut Report) {
                 }
             } else { rep.violation("parser panics", "panic-bytes", format!("{:?} opts={:?}", text, o), "parse_slice_with panicked".into()); }
         }
+        // the infallible entry points on the same text, same option record: same verdict and value
+        if matches!(prop, "C01" | "C02" | "C12") && (text.len() <= 24 || text.contains("\\u")) {
+            let same_as_real = |x: &Result<(Value, json_syntax::CodeMap), json_syntax::parse::Error>| match (&real, x) { (Ok((v1, _)), Ok((v2, _))) => v1 == v2, (Err(_), Err(_)) => true, _ => false };
+            let i1 = std::panic::catch_unwind(|| Value::parse_utf8_infallible_with(text.chars(), opts_real(o)));
+            let i2 = std::panic::catch_unwind(|| Value::parse_infallible_with(text.chars().map(decoded_char::DecodedChar::from_utf8), opts_real(o)));
+            for (name, res) in [("parse_utf8_infallible_with", i1), ("parse_infallible_with", i2)] {
+                match res {
+                    Ok(x) => if !same_as_real(&x) { rep.violation("infallible entry point == string entry point under the same options", "infallible-vs-str", format!("{:?} opts={:?} via {}", text, o, name), format!("parse_str_with ok={} {} ok={}", real.is_ok(), name, x.is_ok())); },
+                    Err(_) => rep.violation("parser panics", "panic-infallible", format!("{:?} opts={:?}", text, o), format!("{} panicked", name)),
+                }
+            }
+        }
         let verdict_ok = real.is_ok() == r.is_ok();
         match prop {
             "C03" => {
